@@ -1,3 +1,6 @@
 import Sqljson.Audit
 import Sqljson.Props.C06
+import Sqljson.Props.C06b
 #audit_ns C06 Sqljson.C06
+#audit_ns C06 Sqljson.C06b
+#audit C06 [Sqljson.Exec.Probe.sim_all, Sqljson.Exec.Probe.xItem_pc, Sqljson.Exec.Probe.xItem_pc_strong, Sqljson.Exec.Probe.fe_all]
